@@ -100,8 +100,8 @@ func planOverlap(w *world, c Case, u []peer.ID, committee, next []int, nextT, st
 	ov.build = func() (*member, error) {
 		// (the stores are the relayer's locking ones: w.ov is this overlap until the refresh has ended)
 		return w.signMember(c.Proto, inputSids(sid, len(digests)), holders, ov.peer, digests, tweakHex,
-			&c08fakes.LockedECDSAStore{ECDSAKeyshareStore: c08fakes.NewECDSAStore(w.ecdsaPath(ov.peer)).ECDSAKeyshareStore, L: ov.lock},
-			&c08fakes.LockedFrostStore{FrostKeyshareStore: c08fakes.NewFrostStore(w.frostPath(ov.peer)).FrostKeyshareStore, L: ov.lock})
+			&c08fakes.LockedECDSAStore{ECDSAKeyshareStore: w.rawEStore(ov.peer), L: ov.lock},
+			&c08fakes.LockedFrostStore{FrostKeyshareStore: w.rawFStore(ov.peer), L: ov.lock})
 	}
 	w.ov = ov
 }
